@@ -170,8 +170,14 @@ def make_names(stats):
 
 def parts(tier):
     n = 8000 if tier == "quick" else 250000
-    return [hyp_part("general", make_general, int(n * 0.4)), hyp_part("edges", make_edges, int(n * 0.3)),
-            hyp_part("zeros", make_zeros, int(n * 0.2)), hyp_part("names", make_names, int(n * 0.1))]
+    ps = [hyp_part("general", make_general, int(n * 0.4)), hyp_part("edges", make_edges, int(n * 0.3)),
+          hyp_part("zeros", make_zeros, int(n * 0.2)), hyp_part("names", make_names, int(n * 0.1))]
+    import os
+    fz = int(os.environ.get("VERIF_FUZZ_RUNS", "0" if tier == "quick" else "160000"))
+    if fz:
+        ps.append(fuzz_part("fuzz-general", ID, "make_general", fz // 2))
+        ps.append(fuzz_part("fuzz-edges", ID, "make_edges", fz // 2))
+    return ps
 
 
 def replay(case):
